@@ -82,6 +82,8 @@ class Calls(Interp):
             return SV(so.strv(obj.name), "str")
         if isinstance(obj, BoundV) and attr == "__name__":
             return SV(so.strv(obj.name), "str")
+        if isinstance(obj, StaticDictV):
+            return BoundV(obj, ("builtin", "staticdict"), attr)
         if isinstance(obj, TupV) and attr in ("index", "count"):
             self.unsupported(node, "tuple method")
         self.unsupported(node, "attribute %s of %r" % (attr, obj))
@@ -178,10 +180,30 @@ class Calls(Interp):
             saved_cls = self.spec_cls
             self.spec_cls = c
             try:
-                self.global_cache[key] = self.eval_const(c.assigns[attr], c.module, node)
+                v = self.eval_const(c.assigns[attr], c.module, node)
+                extra = c.subscript_assigns.get(attr)
+                if extra:
+                    items = dict(v.items) if isinstance(v, StaticDictV) else {}
+                    for k, vexpr in extra:
+                        if isinstance(vexpr, ast.Name) and vexpr.id in c.methods:
+                            items[k] = FuncV(c.methods[vexpr.id], c.module, c)
+                        else:
+                            items[k] = self.eval_const(vexpr, c.module, node)
+                    v = StaticDictV(items)
+                self.global_cache[key] = v
             finally:
                 self.spec_cls = saved_cls
         return self.global_cache[key]
+
+    def static_lookup(self, d, keyval, node, default=None, missing="KeyError"):
+        """lookup in a constant-key table with a possibly symbolic key: one path per key"""
+        for k, v in d.items.items():
+            kv = self.const(k, node)
+            if self.branch(self.equals(keyval, kv, node), "table key %r" % (k,)):
+                return v
+        if default is not None:
+            return default
+        self.raise_builtin(missing, node)
 
     def shape_attr(self, obj, shape, attr, node, default=None):
         c = self.reg.shape_method(shape, attr)
@@ -1147,6 +1169,12 @@ class Calls(Interp):
         arg = parse_tag(recv.ty)[1]
         return TupV([SV(k, None), self.from_term(m[k], self.dict_value_tag(recv))])
 
+    def bm_staticdict_get(self, recv, args, kwargs, node):
+        return self.static_lookup(recv, args[0], node, default=args[1] if len(args) > 1 else SV(Val.none, "none"))
+
+    def bm_staticdict_items(self, recv, args, kwargs, node):
+        return TupV([TupV([self.const(k, node), v]) for k, v in recv.items.items()])
+
     # str
     def bm_str_split(self, recv, args, kwargs, node):
         return SplitV(self.as_str(recv), self.as_str(args[0], node))
@@ -1185,6 +1213,8 @@ class Calls(Interp):
 
     # get_item extension for SplitV / ItemsV iteration
     def get_item(self, obj, sl, node):
+        if isinstance(obj, StaticDictV):
+            return self.static_lookup(obj, self.ev(sl), node)
         if isinstance(obj, SplitV):
             idx = self.ev(sl)
             iv = z3.simplify(self.as_int(idx, node))
